@@ -28,7 +28,7 @@ struct Y1(u8);
 #[derive(Event, Serialize, Deserialize, Clone)]
 struct Y2(u8);
 
-const ITEMS: usize = 13;
+const ITEMS: usize = 14;
 const NAMES: [&str; ITEMS] = [
     "replicate<A>",
     "replicate<A> priority 2",
@@ -43,6 +43,7 @@ const NAMES: [&str; ITEMS] = [
     "server_trigger<Y2>",
     "independent_event<Y1>",
     "independent_trigger<Y1>",
+    "replicate<A> priority 2^32+2",
 ];
 
 fn apply(app: &mut App, item: usize) {
@@ -85,6 +86,10 @@ fn apply(app: &mut App, item: usize) {
         }
         12 => {
             app.make_trigger_independent::<Y1>();
+        }
+        13 => {
+            // equal to item 1 modulo 2^32
+            app.replicate_with_priority((1usize << 32) + 2, RuleFns::<HA>::default());
         }
         _ => unreachable!(),
     }
@@ -142,6 +147,32 @@ fn build(seq: &[usize]) -> App {
 
 fn hash_of_seq(seq: &[usize]) -> String {
     let app = build(seq);
+    format!("{:?}", app.world().resource::<ProtocolHash>())
+}
+
+/// Components that have nothing to do with the protocol (one side of a connection may have them).
+#[derive(Component)]
+struct Noise1;
+#[derive(Component)]
+struct Noise2(#[allow(dead_code)] u64);
+
+/// The same registration sequence in an App that registered unrelated ECS components first
+/// (component ids and archetypes differ, the protocol does not).
+fn hash_of_seq_in_other_world(seq: &[usize]) -> String {
+    let mut app = App::new();
+    app.init_resource::<Time>().add_plugins(
+        RepliconPlugins.set(ServerPlugin { tick_policy: TickPolicy::EveryFrame, ..Default::default() }),
+    );
+    app.world_mut().register_component::<Noise1>();
+    app.world_mut().spawn((Noise1, Noise2(7)));
+    for (k, &i) in seq.iter().enumerate() {
+        if k == 1 {
+            app.world_mut().register_component::<Noise2>();
+        }
+        apply(&mut app, i);
+    }
+    app.finish();
+    app.cleanup();
     format!("{:?}", app.world().resource::<ProtocolHash>())
 }
 
@@ -286,6 +317,13 @@ pub fn run(tier: Tier, _budget: f64, out: &mut Outcome) -> Result<(), MachineryE
     for ((s, h), h2) in hashes.iter().zip(&again) {
         if h != h2 {
             bad.push(Bad { oracle: "nondeterministic-hash", a: s.clone(), b: s.clone(), detail: format!("{h} vs {h2} for the same registrations in one process") });
+        }
+    }
+    // ... and in an App whose world holds unrelated components (other component ids)
+    let other: Vec<String> = seqs.par_iter().map(|s| hash_of_seq_in_other_world(s)).collect();
+    for ((s, h), h2) in hashes.iter().zip(&other) {
+        if h != h2 {
+            bad.push(Bad { oracle: "hash-depends-on-unrelated-state", a: s.clone(), b: s.clone(), detail: format!("{h} vs {h2} for the same registrations in an App that registered unrelated components first") });
         }
     }
     // ... and in a second process
